@@ -17,15 +17,20 @@
      Level       "level" is a string naming the record's level (short or long name, any case listed)
      Timestamp   "timestamp" is an RFC 3339 string denoting the record's instant (zone left open)
 
-   Layer 1 (the code): the message literal is strconv.Quote(formatted message)  (QuoteGo); used for
-   DRIFT only. QuoteGo's printable test is an approximation of strconv.IsPrint that is exact for the
-   classes of the bounded model.                                                                  *)
+   Layer 1 (the code), used for DRIFT only: the message literal is json.Marshal(formatted message)
+   (QuoteJson: encoding/json's string encoder with HTML escaping). The behaviour before the fix
+   (commit "logger message via encoding/json") is kept as the named deviation "GoQuoteLiteral":
+   the literal is strconv.Quote(message) (QuoteGo; its printable test approximates strconv.IsPrint and
+   is exact for the classes of the bounded model). Constant L1Variant selects which of the two layer 1
+   is ("fixed" by default); whatever it is, a failing record whose literal is the old one is reported
+   with deviation = "GoQuoteLiteral", so a regression is named in the violation record.            *)
 EXTENDS VerifCommon
 
 CONSTANTS ClassNames,     \* classes the bounded model draws from
           MaxLen,         \* messages of 0..MaxLen classes
           Levels,         \* subset of {"debug","info","warn","error"}
-          Modes           \* "arg": Log(level, "%s", msg);  "fmt": Log(level, msg with % doubled)
+          Modes,          \* "arg": Log(level, "%s", msg);  "fmt": Log(level, msg with % doubled)
+          L1Variant       \* "fixed" (the current code) or the name of a deviation: "GoQuoteLiteral"
 
 \* ------------------------------------------------------------------ character classes
 ClassBytes(c) ==
@@ -158,7 +163,29 @@ JsonEscapesOnly(q, i) ==
     IF i >= Len(q) THEN TRUE                      \* closing quote
     ELSE IF q[i] = 92 THEN q[i + 1] \in {34, 92, 47, 98, 102, 110, 114, 116, 117} /\ JsonEscapesOnly(q, i + 2)
     ELSE q[i] >= 32 /\ JsonEscapesOnly(q, i + 1)
-L1JsonString(b) == JsonEscapesOnly(QuoteGo(b), 2)
+
+\* layer 1, current code: encoding/json's string encoder (escapeHTML on)
+JsonUnit(b, u) ==
+    IF ~u.ok THEN <<92, 117, 102, 102, 102, 100>>                               \* \ufffd for every invalid byte
+    ELSE CASE u.cp = 34 -> <<92, 34>>
+           [] u.cp = 92 -> <<92, 92>>
+           [] u.cp = 8  -> <<92, 98>>
+           [] u.cp = 12 -> <<92, 102>>
+           [] u.cp = 10 -> <<92, 110>>
+           [] u.cp = 13 -> <<92, 114>>
+           [] u.cp = 9  -> <<92, 116>>
+           [] OTHER -> IF u.cp < 32 \/ u.cp \in {60, 62, 38} \/ u.cp \in {8232, 8233}
+                       THEN <<92, 117>> \o Hex4(u.cp)
+                       ELSE SubSeq(b, u.at, u.at + u.w - 1)
+QuoteJson(b) == LET us == Units(b) IN <<34>> \o Flatten([k \in 1..Len(us) |-> JsonUnit(b, us[k])]) \o <<34>>
+
+Deviations == {"GoQuoteLiteral"}
+DeviationLit(d, b) == QuoteGo(b)                      \* d = "GoQuoteLiteral"
+L1Lit(b) == IF L1Variant = "fixed" THEN QuoteJson(b) ELSE DeviationLit(L1Variant, b)
+\* the named deviation an observed literal exhibits (if any)
+DeviationOf(lit, b) == IF lit = QuoteGo(b) /\ lit # QuoteJson(b) THEN "GoQuoteLiteral" ELSE "none"
+L1JsonString(b) == JsonEscapesOnly(L1Lit(b), 2)
+ASSUME L1Variant \in {"fixed"} \cup Deviations
 
 \* ------------------------------------------------------------------ bounded model
 Times == << [sec |-> 1068000908, nano |-> 431232,    zone |-> 0],
